@@ -38,9 +38,9 @@ def obligations(tier):
     obs = [
         Ob('A1', 'S', 'one chunk attributes to each of 3 files exactly its overlap [max(fs,cs)-cs,min(fe,ce)-cs), index+counter carried; '
            'non-overlapping files get nothing or a zero-length ref; digest/metadata recorded when the chunk reaches the file end',
-           '3 files, unbounded sizes, one arbitrary chunk', [REPO_FUNCS['cd']], module=H, func='a1_one_chunk', timeout=120),
-        Ob('A1e', 'S', 'an empty file between two files is recorded (zero-length ref, digest, metadata) by any chunk covering its position',
-           '3 files (middle empty), unbounded sizes', [REPO_FUNCS['cd']], module=H, func='a1_empty_file_recorded', timeout=120),
+           '3 files, unbounded non-decreasing sizes (snapshot sorts by size), one arbitrary chunk', [REPO_FUNCS['cd']], module=H, func='a1_one_chunk', timeout=120),
+        Ob('A1e', 'S', 'leading empty files (files are sorted by size) are recorded (zero-length ref, digest, metadata) by the chunk starting at 0',
+           '3 files (first one or two empty), unbounded sizes', [REPO_FUNCS['cd']], module=H, func='a1_empty_file_recorded', timeout=120),
         Ob('L1', 'S', 'stream layout: every file occupies [start,end) of its size, starts aligned with <4 bytes zero padding, in list order; '
            'digest/metadata set; yielded bytes == bytes_with_padding', '3 files, <=3 read pieces per file, piece size symbolic',
            [REPO_FUNCS['sf']], module=H, func='l1_layout', timeout=600),
